@@ -263,6 +263,10 @@ func c02Assets(c *Check, pool *NodePool, root string) {
 		}
 	}
 	blobs = append(blobs, []byte{}, []byte(strings.Repeat("x", 70000)))
+	// percent signs in every position relative to hex digits and to the end of the file (data URLs escape "%XX")
+	for _, t := range []string{"%41", "x%41", "%4", "%%41", "%41x", "%4g", "100%25", "%e2%80%a8", "a%0a", "%4%41", "%41%", "%G1", "%1G", "50%", "%AF", "%af%AF", "ab%c", "%25%25"} {
+		blobs = append(blobs, []byte(t))
+	}
 	jsons := []string{"null", "true", "0", "-0", "1e400", "-1e-400", "1.5", "\"\"", "\"a\\u2028\\ud800b\"", "[]", "{}", "[1,[2,{\"a\":null}]]", "{\"__proto__\":1,\"a\":{\"__proto__\":{\"x\":1}}}", "{\"a\":1,\"a\":2}", "{\"constructor\":1,\"toString\":2}", "{\"0\":1,\"-1\":2,\"1e3\":3}", "\"\\u0000\"", "123456789012345678901234567890", "[1,2,3,4,5,6,7,8,9,10]", "{\"default\":1,\"x y\":2,\"if\":3}", "  {\"ws\" : [ 1 , 2 ] }  ", "\"\\ud83d\\ude00\"", "0.1", "1E2", "{\"a\":{\"b\":{\"c\":{\"d\":[]}}}}"}
 	c.ForEach(uint64(len(blobs)), func(w int, i uint64) {
 		blob := blobs[i]
